@@ -92,6 +92,15 @@ G_Predict(st, e) ==
        IN  \/ pk = "test" /\ ~st.didTest
            \/ pk = "train" /\ ~st.didTrain /\ st.kind = "validate"
 
+(* the rows part of G_Predict (for a predict call that fails: it has no output) *)
+G_PredictRows(st, e) ==
+    /\ st.phase = "fitted"
+    /\ e.f = st.folds
+    /\ NoDup(e.rows)
+    /\ LET pk == PredKind(st, e)
+       IN  \/ pk = "test" /\ ~st.didTest
+           \/ pk = "train" /\ ~st.didTrain /\ st.kind = "validate"
+
 E_Predict(st, e) ==
     LET pk == PredKind(st, e) IN
     IF st.kind = "predict"
@@ -117,6 +126,20 @@ E_Score(st, e) ==
     ELSE [st EXCEPT !.phase = "fitted", !.pending = "none", !.didTest = TRUE,
                     !.teS = Append(st.teS, e.s)]
 
+(* A position that was never held out (possible only with a user-supplied      *)
+(* splitter whose test sets do not cover every sample) has no out-of-fold       *)
+(* prediction.  The statement does not say what is returned there, but "no      *)
+(* sample is ever predicted by a model that has seen it" rules out two values:  *)
+(* the sample's own target (500 + i: it would read as a perfect prediction) and *)
+(* the prediction f*1000 + i of a model f that was fitted on row i.  Anything   *)
+(* else (0 as in the code, a non-number, which the harness records as -999) is  *)
+(* accepted.                                                                    *)
+NotLeaked(st, i, v) ==
+    /\ v # 500 + i
+    /\ ~(/\ v >= 1000 /\ v % 1000 = i
+         /\ (v \div 1000) \in DOMAIN st.seenBy
+         /\ i \in st.seenBy[v \div 1000])
+
 G_Done(st, e) ==
     /\ e.kind = st.kind
     /\ e.status = "ok"
@@ -127,6 +150,24 @@ G_Done(st, e) ==
             /\ e.out.testScore = st.teS
        ELSE /\ Len(e.out.yhat) = st.n
             /\ \A i \in st.used : e.out.yhat[i + 1] = st.exp[i]
+            /\ \A i \in Ids(st.n) \ st.used : NotLeaked(st, i, e.out.yhat[i + 1])
+
+(* A run in which the estimator failed on some fold (its Fit or Predict event   *)
+(* carries failed = TRUE).  The statement promises one model per fold and a     *)
+(* score / prediction for every fold's held-out rows; when a fold cannot be     *)
+(* fitted or predicted that promise cannot be kept, and the only ways not to    *)
+(* break it silently are to report the failure, or to return a result that      *)
+(* still has one entry per fold (cross_validate) / per sample                   *)
+(* (cross_val_predict).  A result with FEWER scores than folds presents an      *)
+(* average over the surviving folds as the k-fold score and is rejected.        *)
+NFolds(st) == IF st.custom THEN Len(st.decl) ELSE st.k
+G_DoneAfterFailure(st, e) ==
+    /\ e.kind = st.kind
+    /\ \/ e.status = "err"
+       \/ /\ e.status = "ok"
+          /\ IF st.kind = "validate"
+             THEN Len(e.out.trainScore) = NFolds(st) /\ Len(e.out.testScore) = NFolds(st)
+             ELSE Len(e.out.yhat) = st.n
 
 (* What the property promises about a completed run, stated on the state   *)
 (* alone (checked by CrossValMC on every behaviour the guards admit).      *)
